@@ -532,6 +532,28 @@ func completionSignal(fn *ssa.Function) map[string]bool {
 func waitsForDone(fn *ssa.Function) bool {
 	fns := []*ssa.Function{fn}
 	fns = append(fns, fn.AnonFuncs...)
+	// the wait may sit in a helper of the same package (two levels)
+	for depth := 0; depth < 2; depth++ {
+		for _, f := range append([]*ssa.Function{}, fns...) {
+			for _, b := range f.Blocks {
+				for _, in := range b.Instrs {
+					if ci, ok := in.(*ssa.Call); ok {
+						if cal := ci.Call.StaticCallee(); cal != nil && cal.Blocks != nil && cal.Pkg == fn.Pkg {
+							dup := false
+							for _, x := range fns {
+								if x == cal {
+									dup = true
+								}
+							}
+							if !dup {
+								fns = append(fns, cal)
+							}
+						}
+					}
+				}
+			}
+		}
+	}
 	for _, f := range fns {
 		for _, op := range chanOpsOf(f) {
 			if op.kind == "recv" {
@@ -593,24 +615,53 @@ func c13CallbackOrder(c *Ctx) {
 	// session: the loop `for sc := range ss.conns { sc.Close(); <-sc.done }` precedes OnSessionClose:
 	// no path from runInner's return to OnSessionClose that avoids the range loop header
 	closeCB := find(ssRun, isInvoke("OnSessionClose"))
-	rng := find(ssRun, func(in ssa.Instruction) bool {
-		rg, ok := in.(*ssa.Range)
-		return ok && strings.HasSuffix(core.PathOf(rg.X), ".conns")
-	})
-	recvDone := find(ssRun, func(in ssa.Instruction) bool {
-		u, ok := in.(*ssa.UnOp)
-		return ok && u.Op == token.ARROW && strings.HasSuffix(core.PathOf(u.X), ".done")
-	})
-	okS := closeCB != nil && rng != nil && recvDone != nil && instrDominates(rng, closeCB)
-	if okS {
-		// inside the loop body every iteration passes the receive: from the body's first instruction back to the header without recv?
-		nx := find(ssRun, func(in ssa.Instruction) bool { _, ok := in.(*ssa.Next); return ok })
+	// joinsConns: fn ranges over the session's connections and every iteration waits for the
+	// connection's goroutine (<-sc.done); returns the range instruction
+	joinsConns := func(fn *ssa.Function) ssa.Instruction {
+		rng := find(fn, func(in ssa.Instruction) bool {
+			rg, ok := in.(*ssa.Range)
+			return ok && strings.HasSuffix(core.PathOf(rg.X), ".conns")
+		})
+		recvDone := find(fn, func(in ssa.Instruction) bool {
+			u, ok := in.(*ssa.UnOp)
+			return ok && u.Op == token.ARROW && strings.HasSuffix(core.PathOf(u.X), ".done")
+		})
+		if rng == nil || recvDone == nil {
+			return nil
+		}
+		nx := find(fn, func(in ssa.Instruction) bool { _, ok := in.(*ssa.Next); return ok })
 		if nx != nil {
 			body := nx.Block().Succs[0]
-			skip := pathFromBlockAvoiding(body, func(x ssa.Instruction) bool { return x == nx }, func(x ssa.Instruction) bool { return x == recvDone })
-			okS = !skip
+			if pathFromBlockAvoiding(body, func(x ssa.Instruction) bool { return x == nx }, func(x ssa.Instruction) bool { return x == recvDone }) {
+				return nil
+			}
 		}
+		return rng
 	}
+	var join ssa.Instruction
+	if rng := joinsConns(ssRun); rng != nil {
+		join = rng
+	} else {
+		// the loop may have been moved into a helper that always runs it
+		join = find(ssRun, func(in ssa.Instruction) bool {
+			ci, ok := in.(*ssa.Call)
+			if !ok || ci.Call.StaticCallee() == nil || ci.Call.StaticCallee().Blocks == nil || ci.Call.StaticCallee().Pkg != ssRun.Pkg {
+				return false
+			}
+			h := ci.Call.StaticCallee()
+			rng := joinsConns(h)
+			if rng == nil {
+				return false
+			}
+			for _, rt := range core.Returns(h) {
+				if !instrDominates(rng, rt) {
+					return false // the helper can return without having joined
+				}
+			}
+			return true
+		})
+	}
+	okS := closeCB != nil && join != nil && instrDominates(join, closeCB)
 	r.Check(okS, "C13/CALLBACK-ORDER", "ServerSession.run joins its connections before OnSessionClose", p.Pos(ssRun.Pos()), "range ss.conns { Close; <-sc.done } dominates the notification, every iteration waits", "OnSessionClose can be delivered while a connection goroutine of the session is still running (a request or frame callback may follow it)")
 	connCB := find(scRun, isInvoke("OnConnClose"))
 	wait := find(scRun, func(in ssa.Instruction) bool {
